@@ -105,6 +105,10 @@ structure RefState where
   bufSize : Nat
   cur : RefObj
   oth : RefObj
+  /-- the options an observation keeps of its registration request (a snapshot taken when it was registered) -/
+  obs : Option (List Item) := none
+  /-- the observation is still registered (not cancelled) -/
+  obsLive : Bool := false
   deriving Repr
 
 /-- An operation of the history, parsed. -/
@@ -118,6 +122,9 @@ inductive Op
   | resetTo (inp : List Item)
   | resetSelf (idxs : List Nat)                               -- reset to a selection of the object's own options
   | resetSlice (k n : Nat)                                    -- reset to the slice [k:k+n] of the object's own option slice
+  | setResponse (cf : Nat) (hasBody : Bool) (inp : List Item) -- ResponseWriter.SetResponse
+  | observe | obsOpts | obsReq | obsCancel                    -- an observation registered with the object as request
+  | recycle                                                   -- back to the message pool and out again
   | clone | swap | reset
   | find (id : Nat) | has (id : Nat)
   | getFirst (as : String) (id : Nat)                         -- getu32 / getstr / getbytes
@@ -199,6 +206,37 @@ def ownSlice {β : Type} (l : List β) (k n : Nat) : List β :=
   let k' := k % (l.length + 1)
   (l.drop k').take (n % (l.length - k' + 1))
 
+/-! ### the library's own users of the list: response writer, observation
+
+Written from what these are for, not from their code: a response set with `SetResponse` carries exactly the options
+given (sorted, stable) plus Content-Format when there is a body — whatever the response carried before; an observation
+keeps the options of its registration request *as they were when it was registered* — the request message may be reset
+and reused afterwards; the request rebuilt from an observation carries those options; the deregistration request carries
+Observe = 1 and the path of the registration request. -/
+
+def observeId : Nat := 6
+
+/-- options of a response after `SetResponse(code, cf, body?, opts…)` -/
+def responseOptions (cf : Nat) (hasBody : Bool) (inp : List Item) : List Item :=
+  let l := resetTo inp
+  if hasBody then set (contentFormatId, uintBytes (cf % 65536)) l else l
+
+/-- a registration is accepted iff the request's first Observe option is 0 (RFC 7641 §2: register) -/
+def registers (l : List Item) : Bool :=
+  match values observeId l with
+  | v :: _ => uintOf v == 0
+  | [] => false
+
+/-- options of the deregistration request built from the kept options: Observe = 1 and the (normalised) path of the
+registration request; `none` when that path cannot be set (a stored segment over 255 bytes) -/
+def deregistrationOptions (kept : List Item) : Option (List Item) :=
+  match path uriPathId kept with
+  | none => some [(observeId, [1])]
+  | some p => setPath uriPathId p [(observeId, [1])]
+
+def fmtItems (l : List Item) : List String :=
+  toString l.length :: l.map (fun x => s!"{x.1}:{toHex x.2}")
+
 /-! ### reference semantics of one operation of a pooled message's history
 
 `specStep l op` is the reference list after `op`.  Two choices are **not** dictated by the words of the property and
@@ -230,7 +268,7 @@ def judgeStep (st : RefState) (op : Op) (ob : Obs) : String × RefState :=
   match op with
   | .new k _ b =>
     let rem := match k with | .raw => some b | .pool => none
-    let st' : RefState := ⟨k, b, ⟨[], rem⟩, ⟨[], rem⟩⟩
+    let st' : RefState := { kind := k, bufSize := b, cur := ⟨[], rem⟩, oth := ⟨[], rem⟩ }
     if ob.items != [] then ("violates list-equals-reference: a new object is not empty", st') else ("ok", st')
   | .put isSet typed id v =>
     let tooLong := id == uriPathId && v.length > maxSegment
@@ -251,6 +289,45 @@ def judgeStep (st : RefState) (op : Op) (ob : Obs) : String × RefState :=
   | .resetSlice k n =>
     let inp := ownSlice l k n
     judgeEdit st ⟨[], false, resetTo inp, totalLen inp⟩ ob
+  | .setResponse cf hasBody inp => judgeEdit st ⟨[], false, responseOptions cf hasBody inp, 0⟩ ob
+  | .recycle =>
+    let st' := { st with cur := ⟨[], st.cur.rem.map (fun _ => st.bufSize)⟩ }
+    if ob.items != [] then ("violates list-equals-reference: a message taken from the pool is not empty", st') else ("ok", st')
+  | .observe =>
+    if ob.items != l then ("violates query-changed-list: registering an observation changed the request's option list", st)
+    else if registers l then
+      if ob.err != "ok" then ("violates refused-without-reason: a request with Observe = 0 was not registered", st)
+      else ("ok", { st with obs := some l, obsLive := true })
+    else if ob.err == "ok" then ("violates not-refused: a request without Observe = 0 was registered", st)
+    else ("ok", st)
+  | .obsOpts =>
+    match st.obs with
+    | none => judgeQuery st "notfound" ["0"] ob
+    | some kept =>
+      if ob.items != l then ("violates query-changed-list: a query operation changed the option list", st)
+      else if ob.err != "ok" || ob.rets != fmtItems kept then
+        (s!"violates clone-stable: the options kept by the observation are no longer those of its registration request; expected `{" ".intercalate (fmtItems kept)}`", st)
+      else ("ok", st)
+  | .obsReq =>
+    match st.obs, st.obsLive with
+    | some kept, true =>
+      if ob.items != l then ("violates query-changed-list: a query operation changed the option list", st)
+      else if ob.err != "ok" || ob.rets != fmtItems kept then
+        (s!"violates clone-stable: the request rebuilt from the observation differs from the registration request; expected `{" ".intercalate (fmtItems kept)}`", st)
+      else ("ok", st)
+    | _, _ => judgeQuery st "notfound" ["0"] ob
+  | .obsCancel =>
+    match st.obs, st.obsLive with
+    | some kept, true =>
+      let st' := { st with obsLive := false }
+      if ob.items != l then ("violates query-changed-list: a query operation changed the option list", st')
+      else match deregistrationOptions kept with
+        | none => if ob.err == "ok" then ("violates not-refused: a path with a segment over 255 bytes was sent", st') else ("ok", st')
+        | some d =>
+          if ob.err != "ok" || ob.rets != fmtItems d then
+            (s!"violates clone-stable: the deregistration request does not carry the path of the registration request; expected `{" ".intercalate (fmtItems d)}`", st')
+          else ("ok", st')
+    | _, _ => judgeQuery st "notfound" ["0"] ob
   | .reset =>
     let st' := { st with cur := ⟨[], st.cur.rem.map (fun _ => st.bufSize)⟩ }
     if ob.items != [] then ("violates list-equals-reference: the list is not empty after reset", st') else ("ok", st')
